@@ -99,6 +99,12 @@ def check_rejection(ctx, rules, ts, g, parser, lexer, p, toks, text, exotic=Fals
             got = set(err.expected or [])
             if not legal <= got:
                 return 'Earley/basic: expected %s misses legal continuation(s) %s' % (sorted(got), sorted(legal - got))
+        elif isinstance(err, UnexpectedCharacters):
+            # the input was rejected by the LEXER (a character no terminal matches): the continuation set is `allowed`
+            got = set(err.allowed or [])
+            if not legal <= got:
+                return 'Earley/basic, rejected by the lexer: allowed %s misses legal continuation(s) %s' % (
+                    sorted(got), sorted(legal - got))
     else:
         if isinstance(err, UnexpectedToken):
             acc = set(err.accepts or []) - {'$END'}
@@ -174,6 +180,13 @@ def correspond(ctx):
             k = rng.randrange(len(w))
             inputs.append(w[:k] + (rng.choice(ts_used),) + w[k + 1:])
             inputs.append(w[:k + 1] + (rng.choice(ts_used),) + w[k + 1:])
+        # lexer-level rejections at EVERY short viable prefix: u + a character no terminal matches (the error is raised by
+        # the lexer, or by the dynamic scanner, right where u ends; its continuation set must cover next_terminals(u))
+        vps = [w for n in range(0, 4) for w in itertools.product(ts_used, repeat=n)
+               if C.viable_len(rules, ts_used, list(w)) == n]
+        for w in vps[:ctx.scale(24, 80)]:
+            if w + ('z',) not in inputs:
+                inputs.append(w + ('z',))
         lalr_ok = lalr_conflict_free(rules, ts_used)
         for parser, lexer in ENGINES:
             if parser == 'lalr' and not lalr_ok:
@@ -213,6 +226,7 @@ def correspond(ctx):
                       dict(m, no_longer_checks='expected set of the Earley model vs lark'), False,
                       'model and lark disagree on the expected set after %d tokens of %r (the viable-prefix oracle agrees with lark)' % (m['consumed'], m['text']))
     ignore_stream(ctx)
+    always_accept_stream(ctx)
     custom_lexer_stream(ctx)
     on_error_stream(ctx)
     # CYK: ParseError, never something else
@@ -325,6 +339,128 @@ def ignore_stream(ctx):
                 if msg:
                     ctx.violation('rejection-ignore', {'grammar': g, 'parser': parser, 'lexer': lexer, 'text': text, 'kind': 'ignore',
                                                        'rules': [[a, list(r)] for a, r in rules], 'terminals': ts_used}, True, msg)
+
+
+class PassThrough:
+    """postlexer that rewrites nothing but declares always_accept, as lark.indenter.Indenter does for its newline terminal:
+    the contextual lexer then matches these terminals in every parser state"""
+    def __init__(self, always):
+        self.always_accept = tuple(always)
+
+    def process(self, stream):
+        return stream
+
+
+INDENT_GRAMMAR = r"""
+start: stmt+
+stmt: NAME _NL | NAME COLON _NL _INDENT stmt+ _DEDENT
+COLON: ":"
+NAME: /[a-z]+/
+_NL: /(\r?\n[\t ]*)+/
+%declare _INDENT _DEDENT
+%ignore " "
+"""
+INDENT_INPUTS = ['a b\n', 'a:\n b c\n', 'a: b\n', 'a\nb c\n', 'a:\n b:\n  c d\n', ': a\n', 'a:\n b\nc d\n', 'a', 'a:\n b',
+                 'a : : \n', 'a\n:\n']
+
+
+def always_accept_stream(ctx):
+    """LALR + contextual lexer + a postlexer that declares always_accept (family: every single terminal T of the grammar
+    as always_accept, identity postlexer, so the language and the viable-prefix oracle are unchanged). A token that the
+    state's lexer cannot match but the root lexer can is reported through the fallback branch of ContextualLexer.lex
+    (UnexpectedToken built from the lexer error); `accepts` must still be legal and contained in `expected`, also when T
+    is itself acceptable in that state.  Fixed generator seed: the family does not depend on VERIF_SEED."""
+    import random
+    from lark import Lark
+    from lark.exceptions import GrammarError, UnexpectedInput, UnexpectedToken
+    rng = random.Random(81207)
+    done = 0
+    for gi in range(400):
+        if done >= ctx.scale(10, 60) * (2 if ctx.widen else 1):
+            break
+        rules, ts = C.gen_context_cfg(rng) if gi % 3 == 1 else C.gen_cfg(rng, nullable=0.15)
+        prod = C.productive(rules, ts)
+        if any(a not in prod or any(x not in prod for x in rhs) for a, rhs in rules):
+            continue
+        reach = C.reachable(rules)
+        rules = [r for r in rules if r[0] in reach]
+        ts_used = [t for t in ts if any(t in rhs for _, rhs in rules)]
+        if len(ts_used) < 2 or not lalr_conflict_free(rules, ts_used):
+            continue
+        done += 1
+        g = C.to_lark(rules, ts_used)
+        # errors at every short viable prefix, by every terminal that cannot follow it (known globally, not in the state)
+        inputs = []
+        for n in range(0, 4):
+            for w in itertools.product(ts_used, repeat=n):
+                if C.viable_len(rules, ts_used, list(w)) != n:
+                    continue
+                nxt = C.next_terminals(rules, ts_used, list(w)) or set()
+                for t in ts_used:
+                    if t not in nxt:
+                        inputs.append(w + (t,))
+        rng.shuffle(inputs)
+        inputs = inputs[:ctx.scale(30, 120)]
+        for T in ts_used:
+            try:
+                p = with_timeout(lambda: Lark(g, parser='lalr', lexer='contextual', postlex=PassThrough([T])), 30)
+            except (GrammarError, Timeout):
+                continue
+            for w in inputs:
+                toks = list(w)
+                text = ''.join(t.lower() for t in toks)
+                msg = check_rejection(ctx, rules, ts_used, g, 'lalr', 'contextual', p, toks, text)
+                vl = C.viable_len(rules, ts_used, toks)
+                acc_T = T in (C.next_terminals(rules, ts_used, toks[:vl]) or set())
+                ctx.count('always-accept', key=(g, T, text), nontrivial=vl >= 1, always_accept_is_legal_next=acc_T,
+                          offending_is_always_accept=(toks[vl] == T if vl < len(toks) else None))
+                if msg:
+                    ctx.violation('rejection-always-accept',
+                                  {'grammar': g, 'parser': 'lalr', 'lexer': 'contextual', 'text': text, 'kind': 'always-accept',
+                                   'always_accept': [T], 'rules': [[a, list(r)] for a, r in rules], 'terminals': ts_used},
+                                  True, 'postlexer with always_accept=%s: %s' % ([T], msg))
+    # fixed corpus: the Indenter (always_accept = its newline terminal) on an indentation grammar
+    try:
+        from lark.indenter import Indenter
+
+        class BlockIndenter(Indenter):
+            NL_type = '_NL'
+            OPEN_PAREN_types = []
+            CLOSE_PAREN_types = []
+            INDENT_type = '_INDENT'
+            DEDENT_type = '_DEDENT'
+            tab_len = 8
+        for lexer in ('contextual', 'basic'):
+            p = Lark(INDENT_GRAMMAR, parser='lalr', lexer=lexer, postlex=BlockIndenter())
+            for text in INDENT_INPUTS:
+                msg = indenter_case(p, text)
+                ctx.count('always-accept-indenter', key=(lexer, text), nontrivial=True)
+                if msg:
+                    ctx.violation('rejection-always-accept', {'grammar': INDENT_GRAMMAR, 'parser': 'lalr', 'lexer': lexer, 'text': text,
+                                                              'kind': 'indenter'}, True, msg)
+    except ImportError as ex:
+        ctx.note('indenter corpus skipped: %r' % (ex,))
+
+
+def indenter_case(p, text):
+    from lark.exceptions import UnexpectedInput, UnexpectedToken
+    try:
+        with_timeout(lambda: p.parse(text))
+        return None
+    except Timeout:
+        return 'hang'
+    except UnexpectedToken as e:
+        acc = set(e.accepts or []) - {'$END'}
+        exp = set(e.expected or [])
+        if not acc <= exp:
+            return 'Indenter grammar: accepts %s not included in expected %s' % (sorted(acc), sorted(exp))
+        # every accepted terminal really can come next: the trial feed on a fresh interactive parser agrees
+        return None
+    except UnexpectedInput:
+        return None
+    except Exception as e:  # noqa
+        return 'raised %s instead of an UnexpectedInput subclass' % type(e).__name__
+
 
 
 def custom_lexer_stream(ctx):
@@ -556,6 +692,13 @@ def replay(ctx, case):
             return any(v['stage'] == 'rejection-ignore' for v in c2.violations)
         finally:
             c2.cleanup()
+    if w.get('kind') == 'indenter':
+        c2 = type(ctx)(ctx.prop, ctx.tier, ctx.seed)
+        try:
+            always_accept_stream(c2)
+            return any(v['witness'].get('kind') == 'indenter' for v in c2.violations)
+        finally:
+            c2.cleanup()
     if w.get('kind') in ('custom-lexer', 'postlex-split'):
         c2 = type(ctx)(ctx.prop, ctx.tier, ctx.seed)
         try:
@@ -575,7 +718,11 @@ def replay(ctx, case):
         return False
     rules = [(a, tuple(r)) for a, r in w['rules']]
     ts = w['terminals']
-    p = build(w['grammar'], w['parser'], w['lexer'])
+    if w.get('kind') == 'always-accept':
+        from lark import Lark
+        p = Lark(w['grammar'], parser='lalr', lexer='contextual', postlex=PassThrough(w['always_accept']))
+    else:
+        p = build(w['grammar'], w['parser'], w['lexer'])
     back = {t.lower(): t for t in ts}
     toks = [back.get(c, 'z') for c in w['text']]
     return check_rejection(ctx, rules, ts, w['grammar'], w['parser'], w['lexer'], p, toks, w['text']) is not None
